@@ -107,6 +107,11 @@ def evaluate(case):
                         and pd.api.types.is_numeric_dtype(res[cn]) and pd.api.types.is_numeric_dtype(data[cn]):
                     got = res[cn].astype("float64").to_numpy(na_value=float("nan"))
                     want = data[cn].astype("float64").abs().to_numpy(na_value=float("nan"))
+                    if res[cn].dtype != data[cn].dtype and pd.api.types.is_integer_dtype(res[cn]) \
+                            and not (want[want == want] % 1 == 0).all():
+                        # (the column was also coerced to integers and holds fractions: what the cast does to them is the
+                        # engine's business - C10 - not the parser's)
+                        continue
                     if not ((got == want) | ((got != got) & (want != want))).all():
                         ev.add("parser-result-not-in-returned-object", {"column": str(cn), "ops": ops, "entry": case.get("entry", "schema"),
                                                                         "returned": [repr(x) for x in got[:5]], "parsed": [repr(x) for x in want[:5]]})
